@@ -40,6 +40,11 @@ L.append("lim=1 " + R('a','g','f',"HTTP/1.0 200 OK\r\ncontent-length: 3\r\nconne
 c("HTTP/1.0 + content-length: 0 is an empty body, not read-until-close (before fix 6a58a6d: stray bytes became the body / hang with keep-alive)",
   "lim=1 " + R('a','g','f',"HTTP/1.0 200 OK\r\nContent-Length: 0\r\n\r\n\r\n",'c') + " " + G('a'))
 L.append("lim=1 " + R('a','g','f',"HTTP/1.0 200 OK\r\ncontent-length: 0\r\nconnection: keep-alive\r\n\r\n",'k') + " " + G('a'))
+c("304 announcing a length it does not send, then close: clean empty body (follow-up fix; test not_modified_spec_h1 /cl-none)",
+  "lim=1 " + R('a','g','f',"HTTP/1.1 304 Not Modified\r\ncontent-length: 24\r\n\r\n",'c') + " " + G('a'))
+c("KNOWN FINDING: bytes after a 304 with Content-Length are delivered as its body (pinned by not_modified_spec_h1 /cl-body)",
+  "lim=1 " + R('a','g','f',"HTTP/1.1 304 Not Modified\r\ncontent-length: 4\r\n\r\n1234",'k') + " " + G('a'))
+L.append("lim=1 " + R('a','g','f',"HTTP/1.1 204 No Content\r\ncontent-length: 4\r\n\r\n12",'c') + " " + G('a'))
 c("KNOWN FINDING: `Upgrade: websocket` on a 200 response makes the decoder ignore Content-Length",
   "lim=1 " + R('a','g','f',"HTTP/1.1 200 OK\r\ncontent-length: 3\r\nupgrade: websocket\r\n\r\nabc",'k') + " " + G('a'))
 c("KNOWN FINDING: close among several Connection values is not honoured",
